@@ -284,6 +284,19 @@ def r_map_end_wrapper(ctx: Ctx, rule: str) -> None:
                     for nf in ctx.an.scope(t).nested.values():
                         if any(isinstance(x, ast.Name) and x.id == nf.name for x in trets):
                             inner.append((nf, t, env))
+        if not inner:
+            # `return partial(<function of the package>, map_semaphore, actual_end_callback)`: the wrapper is that function with its
+            # leading parameters bound to what the factory passes
+            for r in rets:
+                v = ctx.vals.resolve(outer, r.value)
+                if isinstance(v, ast.Call) and v.args and not any(isinstance(a, ast.Starred) for a in v.args) and all(k.arg is not None for k in v.keywords):
+                    cal = sc.callee(v)
+                    if cal.kind == "ext" and cal.name in ("functools.partial", "partial"):
+                        synth = ast.copy_location(ast.Call(func=v.args[0], args=list(v.args[1:]), keywords=list(v.keywords)), v)
+                        tcal = sc.callee(synth)
+                        if tcal.kind == "pkg" and len(tcal.targets) == 1:
+                            t = tcal.targets[0]
+                            inner.append((t, t, bind_args(synth, t, outer, None)))
         rep.floor(rule, "nested wrapper function", len(inner), 1)
 
         def through_helper(helper, env, e):
@@ -298,8 +311,16 @@ def r_map_end_wrapper(ctx: Ctx, rule: str) -> None:
             g = ctx.an.cfg(f)
 
             def is_release(n, helper=helper, henv=henv) -> bool:
-                if any(e.kind == "release" and e.path == "<map_semaphore>" for e in ctx.eff.of_node(n)):
+                bound_names = set(henv) if (helper is not None and henv and helper is f) else set()
+                if any(e.kind == "release" and e.path == "<map_semaphore>" for e in ctx.eff.of_node(n)) and "map_semaphore" not in bound_names:
                     return True
+                # released under the name of a parameter that the factory bound to its map semaphore (partial / helper)
+                if helper is not None and henv:
+                    for e in ctx.eff.of_node(n):
+                        if e.kind == "release" and e.path.startswith("<") and e.path.endswith(">") and e.path[1:-1] in henv:
+                            fr0, arg0 = henv[e.path[1:-1]][0], henv[e.path[1:-1]][1]
+                            if fr0 is outer and ctx.eff.paths(outer).of(arg0) == "<map_semaphore>":
+                                return True
                 # a bound `map_semaphore.release` handed to the helper and called there under the parameter's name
                 if helper is not None and n.op == "call" and isinstance(n.ast.func, ast.Name) and not n.ast.args and not n.ast.keywords:
                     fr, e = through_helper(helper, henv, n.ast.func)
